@@ -281,3 +281,69 @@ func init() {
 		return ex.newSlice(types.Typ[types.Uint8], elems, n, "MakeNoZero")
 	})
 }
+
+func init() {
+	// internal/bytealg index/count primitives (assembly in the real runtime): if-then-else chains
+	indexByte := func(ex *Exec, bs []*Term, c *Term) *Term {
+		acc := ex.goInt(-1)
+		for i := len(bs) - 1; i >= 0; i-- {
+			acc = ex.ts.Ite(ex.ts.Eq(bs[i], c), ex.goInt(int64(i)), acc)
+		}
+		return acc
+	}
+	sliceBytes := func(ex *Exec, v Value) []*Term {
+		var bs []*Term
+		for _, e := range ex.sliceElems(v.(SliceV)) {
+			bs = append(bs, e.(*Term))
+		}
+		return bs
+	}
+	registerIntrinsic("internal/bytealg.IndexByteString", func(ex *Exec, fr *Frame, fn *ssa.Function, a []Value, site ssa.Instruction) Value {
+		return indexByte(ex, a[0].(StringV).B, a[1].(*Term))
+	})
+	registerIntrinsic("internal/bytealg.IndexByte", func(ex *Exec, fr *Frame, fn *ssa.Function, a []Value, site ssa.Instruction) Value {
+		return indexByte(ex, sliceBytes(ex, a[0]), a[1].(*Term))
+	})
+	count := func(ex *Exec, bs []*Term, c *Term) *Term {
+		acc := ex.goInt(0)
+		for _, b := range bs {
+			if ex.intMode {
+				acc = ex.ts.Ite(ex.ts.Eq(b, c), ex.ts.IntBin("+", acc, ex.ts.IntConst64(1)), acc)
+			} else {
+				acc = ex.ts.Ite(ex.ts.Eq(b, c), ex.ts.BVBin("bvadd", acc, ex.ts.BVConst(64, 1)), acc)
+			}
+		}
+		return acc
+	}
+	registerIntrinsic("internal/bytealg.CountString", func(ex *Exec, fr *Frame, fn *ssa.Function, a []Value, site ssa.Instruction) Value {
+		return count(ex, a[0].(StringV).B, a[1].(*Term))
+	})
+	registerIntrinsic("internal/bytealg.Count", func(ex *Exec, fr *Frame, fn *ssa.Function, a []Value, site ssa.Instruction) Value {
+		return count(ex, sliceBytes(ex, a[0]), a[1].(*Term))
+	})
+}
+
+func init() {
+	// fatih/color: colour codes are elided - Sprint returns the concatenation of its string
+	// operands (what remains when the escape sequences are deleted)
+	const pkg = "github.com/fatih/color"
+	registerIntrinsic(pkg+".New", func(ex *Exec, fr *Frame, fn *ssa.Function, a []Value, site ssa.Instruction) Value {
+		rt := fn.Signature.Results().At(0).Type().(*types.Pointer).Elem()
+		return Pointer{Obj: ex.newObject(rt, "color.Color")}
+	})
+	registerIntrinsic("(*"+pkg+".Color).Sprint", func(ex *Exec, fr *Frame, fn *ssa.Function, a []Value, site ssa.Instruction) Value {
+		var out []*Term
+		for _, e := range ex.sliceElems(a[1].(SliceV)) {
+			iv, ok := e.(IfaceV)
+			if !ok {
+				ex.unsupported("color.Sprint operand %T", e)
+			}
+			s, ok := iv.V.(StringV)
+			if !ok {
+				ex.unsupported("color.Sprint of a non-string operand")
+			}
+			out = append(out, s.B...)
+		}
+		return StringV{B: out}
+	})
+}
